@@ -26,7 +26,7 @@ def check(ctx):
     if quick:
         hs, fr, kn = ptgrun.make_jobs(progs, exes, ORACLE, True, '0,1:1', '0,1:1', (1, 2, 4), 2, 5, 2, 14, 16)
     else:
-        hs, fr, kn = ptgrun.make_jobs(progs, exes, ORACLE, False, '0,1:1,2:3', grid, (1, 2, 3, 4, 8), 2, 6, 3, 110, 200)
+        hs, fr, kn = ptgrun.make_jobs(progs, exes, ORACLE, False, '0,1:1,2:3', grid, (1, 2, 3, 4, 8), 2, 6, 3, 75, 200)
     ctx.notes.append('%d programs, %d variants; %d variants refused by the reference interpreter' % (len(progs), sum(len(p.variants) for p in progs), refused))
     R.run_jobs(hs, 'hsched-all-task-orders')
     R.run_jobs(fr, 'free-running-configuration-box')
